@@ -19,7 +19,9 @@ func VerifC12RegistryAcrossGenesis() { c13AggregateGenesis() }
 // checksummed one the proposals write) and the pairs are any list it accepts. After InitGenesis of a validated state with
 // one or two pairs, every pair is found by its contract and by each of its denominations, the record it is found under is
 // that pair, and no contract or denomination leads to another pair.
-func VerifC12ValidatedGenesisImportIsConsistent() {
+func VerifC12ValidatedGenesisImportIsConsistent() { c12ValidatedGenesis() }
+
+func c12ValidatedGenesis() {
 	rt.Override("(github.com/cosmos/cosmos-sdk/x/auth/keeper.AccountKeeper).GetModuleAccount", func(_ authkeeper.AccountKeeper, _ sdk.Context, name string) authtypes.ModuleAccountI {
 		return &authtypes.ModuleAccount{Name: name}
 	})
